@@ -436,3 +436,12 @@ def mc(ctx):
 
 
 RULES.append(mc)
+
+
+@rule("M7", doc="the usages index, which the re-queue after a class change walks, lists an e-node under EVERY class it refers to — its own class included (C08.W1)")
+def m7(ctx):
+    from . import c08
+    c08.w1(ctx)
+
+
+RULES.append(m7)
